@@ -1021,6 +1021,34 @@ class Interp:
                 for i, v in cases:
                     out.append((i, ("some", self.apply_fn(fr, f, [v[1]], args[1])) if v[0] == "some" else ("none",)))
                 return out[0][1] if len(out) == 1 else Cases(out)
+        if d.startswith("core::option::Option") and name == "filter" and len(args) == 2:
+            optv = self.eval(fr, args[0])
+            f = self.eval(fr, args[1])
+            if isinstance(optv, PathVal):
+                a_ = Poly.atom(("some", optv.path))
+                cases = [(a_, ("some", PathVal(optv.path))), (ind_not(a_), ("none",))]
+            else:
+                cases = self.opt_cases(optv)
+            if cases is not None:
+                out = []
+                for i, v in cases:
+                    if v[0] != "some":
+                        out.append((i, v))
+                        continue
+                    keep = self.bool_of(self.apply_fn(fr, f, [v[1]], args[1]))
+                    if keep is None:
+                        raise Unsupported("Option::filter predicate is not a condition")
+                    out.append((i * keep, v))
+                    out.append((i * ind_not(keep), ("none",)))
+                out = [(i, v) for i, v in out if not i.is_zero()]
+                return out[0][1] if len(out) == 1 else Cases(out)
+        if d.startswith("core::bool::") and name in ("then_some", "then") and len(args) == 2:
+            c_ = self.bool_of(self.eval(fr, args[0]))
+            if c_ is not None:
+                pay = self.eval(fr, args[1])
+                if name == "then":
+                    pay = self.apply_fn(fr, pay, [], args[1])
+                return Cases([(c_, ("some", pay)), (ind_not(c_), ("none",))])
         if d.startswith("core::option::Option") and name in ("unwrap_or", "unwrap_or_default") and len(args) in (1, 2):
             optv = self.eval(fr, args[0])
             dflt = self.eval(fr, args[1]) if len(args) == 2 else Poly.const(0)
